@@ -18,6 +18,7 @@ import (
 	"go.uber.org/zap"
 	"go.uber.org/zap/zapcore"
 
+	"github.com/lindb/common/pkg/encoding"
 	"github.com/lindb/common/pkg/logger"
 
 	"github.com/lindb/lindb/constants"
@@ -210,11 +211,14 @@ type world struct {
 	clock     int64
 
 	prev *snap
-	log  []string
+	log  []logEntry
 	sig  []byte // signature of the history (event kinds + transitions) for distinctness
 	hash uint64
 
 	interesting bool
+	length      int  // target number of delivered events (<= 60)
+	synced      bool // the CURRENT master has written /storage/state at least once
+	failovers   int
 	badPrev     map[string]bool // invariant breaks present after the previous event (reported once, at the event that introduced them)
 	badNow      map[string]bool
 }
@@ -228,15 +232,37 @@ func (w *world) flag(kind, subject string, et discovery.EventType, msg string, w
 	w.res.violation(kind+"/after-"+et.String(), msg, wit)
 }
 
+func (w *world) flagShard(kind string, sh *shardSnap, cur *snap, et discovery.EventType, msg string, wit func() any) {
+	w.flag(kind, sh.DB+"/"+strconv.Itoa(sh.ID), et,
+		fmt.Sprintf("%s: %s/%d replicas=%v live=%v leader=%d state=%d", msg, sh.DB, sh.ID, sh.Replicas, cur.Live, sh.Leader, sh.State), wit)
+}
+
 func livePath(id int) string { return constants.GetStorageLiveNodePath(strconv.Itoa(id)) }
 
+// logEntry is formatted only when somebody reads the log (witness, sample, verbose re-run).
+type logEntry struct {
+	format string
+	args   []any
+}
+
 func (w *world) logf(format string, args ...any) {
-	line := fmt.Sprintf(format, args...)
-	w.log = append(w.log, line)
+	w.log = append(w.log, logEntry{format, args})
 	if w.verbose {
-		fmt.Println(line)
+		fmt.Printf(format+"\n", args...)
 	}
 }
+
+func (w *world) logLines() []string {
+	out := make([]string, len(w.log))
+	for i, e := range w.log {
+		out[i] = fmt.Sprintf(e.format, e.args...)
+	}
+	return out
+}
+
+type lazyEvent struct{ ev *discovery.Event }
+
+func (l lazyEvent) String() string { return describe(l.ev) }
 
 func (w *world) witness(ev *discovery.Event, cur *snap, extra any) func() any {
 	return func() any {
@@ -246,7 +272,7 @@ func (w *world) witness(ev *discovery.Event, cur *snap, extra any) func() any {
 			"event":         describe(ev),
 			"state_before":  w.prev,
 			"state_after":   cur,
-			"log":           append([]string(nil), w.log...),
+			"log":           w.logLines(),
 			"extra":         extra,
 			"repo_live_now": w.repoLive(),
 		}
@@ -293,7 +319,7 @@ func (w *world) route(ops []repoOp, origin string) {
 func (w *world) enqueue(q int, ev *discovery.Event, origin string) {
 	w.seq++
 	w.queues[q] = append(w.queues[q], qev{w.seq, ev})
-	w.logf("  queue[%d] #%d (%s) %s", q, w.seq, origin, describe(ev))
+	w.logf("  queue[%d] #%d (%s) %s", q, w.seq, origin, lazyEvent{ev})
 }
 
 func (w *world) pending() int { return len(w.queues[0]) + len(w.queues[1]) + len(w.queues[2]) }
@@ -308,13 +334,13 @@ func (w *world) del(key string) {
 	w.route(w.repo.takeOps(), "world")
 }
 
+// repoLive lists the ids registered under /storage/live/nodes in the repository (key suffix = node id, see the assumptions).
 func (w *world) repoLive() []int {
 	kvs, _ := w.repo.List(context.TODO(), constants.StorageLiveNodesPath+"/")
-	var out []int
+	out := make([]int, 0, len(kvs))
 	for _, kv := range kvs {
-		var n models.StatefulNode
-		if json.Unmarshal(kv.Value, &n) == nil {
-			out = append(out, int(n.ID))
+		if id, err := strconv.Atoi(kv.Key[strings.LastIndex(kv.Key, "/")+1:]); err == nil {
+			out = append(out, id)
 		}
 	}
 	return out
@@ -402,6 +428,8 @@ func (w *world) act() {
 		if r.Intn(2) == 0 {
 			w.nodeUp(id)
 		}
+	case p < 51 && w.failovers < 2 && w.delivered+w.pending()+20 < w.length: // the master dies; a fresh state manager starts on the same repository
+		w.failover()
 	case p < 59: // kill every registered replica of one shard / everything
 		st := w.sm.GetStorageState()
 		var targets []int
@@ -485,15 +513,38 @@ func (w *world) act() {
 		w.logf("world: hand-written assignment for %s: %s", name, data)
 		w.put(constants.GetDatabaseAssignPath(name), data)
 	default: // malformed input
-		switch r.Intn(4) {
+		switch r.Intn(5) {
 		case 0:
 			w.enqueue(qNodes, &discovery.Event{Type: discovery.NodeStartup, Key: livePath(w.pool[0]), Value: []byte("{not json")}, "malformed")
 		case 1:
 			w.enqueue(qCfg, &discovery.Event{Type: discovery.DatabaseConfigChanged, Key: constants.GetDatabaseConfigPath("bad"), Value: []byte("[1,2")}, "malformed")
 		case 2:
 			w.enqueue(qCfg, &discovery.Event{Type: discovery.DatabaseConfigChanged, Key: constants.GetDatabaseConfigPath(""), Value: []byte(`{"name":"","numOfShard":3,"replicaFactor":1}`)}, "malformed")
-		default:
+		case 3:
 			w.enqueue(qAssign, &discovery.Event{Type: discovery.ShardAssignmentChanged, Key: constants.GetDatabaseAssignPath("bad"), Value: []byte("{{")}, "malformed")
+		default: // an event type the master does not handle
+			w.enqueue(qCfg, &discovery.Event{Type: discovery.StorageStateChanged, Key: constants.StorageStatePath, Value: []byte("{}")}, "foreign")
+		}
+	}
+}
+
+// failover replaces the state manager by a fresh one (new elected master). Its state machines list every
+// watched prefix and emit one event per existing key; what was queued for the old master is gone.
+func (w *world) failover() {
+	w.failovers++
+	w.res.count("master_failovers", 1)
+	w.logf("world: master fails over - a fresh state manager starts on the same repository and replays every watched key")
+	w.sm.Close()
+	w.sm = master.NewStateManager(context.Background(), w.repo, nil)
+	w.queues = [3][]qev{}
+	w.expLive = map[int]bool{}
+	w.prev = takeSnap(w.sm.GetStorageState())
+	w.badPrev = nil
+	w.synced = false
+	for _, pre := range []string{constants.StorageLiveNodesPath, constants.DatabaseConfigPath, constants.ShardAssignmentPath} {
+		kvs, _ := w.repo.List(context.TODO(), pre+"/")
+		for _, kv := range kvs {
+			w.route([]repoOp{{Key: kv.Key, Val: kv.Value}}, "initial listing")
 		}
 	}
 }
@@ -534,7 +585,7 @@ func (w *world) deliver(e qev) {
 	ev := e.ev
 	res := w.res
 	w.delivered++
-	w.logf("deliver #%d %s", e.seq, describe(ev))
+	w.logf("deliver #%d %s", e.seq, lazyEvent{ev})
 	res.count("events_"+ev.Type.String(), 1)
 
 	// what the event is about
@@ -579,6 +630,11 @@ func (w *world) deliver(e qev) {
 
 	ops := w.repo.takeOps()
 	w.route(ops, "master")
+	for _, op := range ops {
+		if !op.Del && op.Key == constants.StorageStatePath {
+			w.synced = true
+		}
+	}
 	cur := takeSnap(w.sm.GetStorageState())
 	res.Evals++
 	cur.digest(&w.hash)
@@ -805,15 +861,14 @@ func (w *world) checkState(ev *discovery.Event, evDB string, evNode int, evNodeO
 	}
 
 	// the property: online <=> some replica alive; leader of an online shard is an alive replica of it
-	for _, sh := range cur.Shards {
+	for i := range cur.Shards {
+		sh := cur.Shards[i]
 		alive := 0
 		for _, r := range sh.Replicas {
 			if cur.hasLive(r) {
 				alive++
 			}
 		}
-		id := fmt.Sprintf("%s/%d replicas=%v live=%v leader=%d", sh.DB, sh.ID, sh.Replicas, cur.Live, sh.Leader)
-		sk := sh.DB + "/" + strconv.Itoa(sh.ID)
 		switch sh.State {
 		case int(models.OnlineShard):
 			res.count("shard_evaluations_online", 1)
@@ -821,23 +876,23 @@ func (w *world) checkState(ev *discovery.Event, evDB string, evNode int, evNodeO
 				res.count("shard_evaluations_online_with_some_dead_replica", 1)
 			}
 			if alive == 0 {
-				w.flag("C18/online-without-alive-replica", sk, et, "shard reported online, no replica alive: "+id, wit)
+				w.flagShard("C18/online-without-alive-replica", &sh, cur, et, "shard reported online, no replica alive", wit)
 			}
 			if !containsInt(sh.Replicas, sh.Leader) {
-				w.flag("C18/leader-not-a-replica", sk, et, "leader is not a replica of the shard: "+id, wit)
+				w.flagShard("C18/leader-not-a-replica", &sh, cur, et, "leader is not a replica of the shard", wit)
 			} else if !cur.hasLive(sh.Leader) {
-				w.flag("C18/leader-dead", sk, et, "leader of an online shard is not alive: "+id, wit)
+				w.flagShard("C18/leader-dead", &sh, cur, et, "leader of an online shard is not alive", wit)
 			}
 		case int(models.OfflineShard):
 			res.count("shard_evaluations_offline", 1)
 			if alive > 0 {
-				w.flag("C18/offline-with-alive-replica", sk, et, "shard reported offline although a replica is alive: "+id, wit)
+				w.flagShard("C18/offline-with-alive-replica", &sh, cur, et, "shard reported offline although a replica is alive", wit)
 			}
 			if sh.Leader != int(models.NoLeader) {
-				w.flag("C18/offline-shard-has-leader", sk, et, "offline shard still names a leader: "+id, wit)
+				w.flagShard("C18/offline-shard-has-leader", &sh, cur, et, "offline shard still names a leader", wit)
 			}
 		default:
-			w.flag("C18/shard-state-neither-online-nor-offline", sk, et, fmt.Sprintf("state=%d: %s", sh.State, id), wit)
+			w.flagShard("C18/shard-state-neither-online-nor-offline", &sh, cur, et, "shard state is neither online nor offline", wit)
 		}
 	}
 
@@ -916,16 +971,21 @@ func (w *world) checkState(ev *discovery.Event, evDB string, evNode int, evNodeO
 	w.sig = append(w.sig, byte(et), byte(trans[0]), byte(trans[1]), byte(trans[2]), byte(trans[3]))
 
 	// what the rest of the cluster reads: the state synced to the repository equals the state in memory
-	if data, ok := w.repo.peek(constants.StorageStatePath); ok {
-		st := models.NewStorageState()
-		if err := json.Unmarshal(data, st); err != nil {
-			res.violation("C18/synced-state-unreadable", "storage state in the repository cannot be decoded: "+err.Error(), wit)
-		} else {
-			synced := takeSnap(st)
-			a, _ := json.Marshal(synced)
-			b, _ := json.Marshal(cur)
-			if string(a) != string(b) {
-				w.flag("C18/synced-state-stale", "", et, fmt.Sprintf("repository has %s, memory has %s", a, b), wit)
+	if data, ok := w.repo.peek(constants.StorageStatePath); ok && w.synced {
+		// fast path: the in-memory state, marshalled the way syncState does it, is byte-identical to what the repository holds
+		if string(encoding.JSONMarshal(w.sm.GetStorageState())) != string(data) {
+			st := models.NewStorageState()
+			if err := json.Unmarshal(data, st); err != nil {
+				res.violation("C18/synced-state-unreadable", "storage state in the repository cannot be decoded: "+err.Error(), wit)
+			} else {
+				synced := takeSnap(st)
+				a, _ := json.Marshal(synced)
+				b, _ := json.Marshal(cur)
+				if string(a) != string(b) {
+					w.flag("C18/synced-state-stale", "", et, fmt.Sprintf("repository has %s, memory has %s", a, b), wit)
+				} else {
+					res.count("synced_state_compared_structurally", 1)
+				}
 			}
 		}
 	} else if len(cur.Live)+len(cur.Shards) > 0 {
@@ -946,7 +1006,7 @@ func runHistory(c *core.Ctx, idx int, res *childResult, verbose bool) {
 	repo := newMemRepo()
 	w := &world{idx: idx, rnd: rnd, repo: repo, res: res, verbose: verbose, expLive: map[int]bool{}, dbs: []string{"db0", "db1", "db2"}}
 	w.sm = master.NewStateManager(context.Background(), repo, nil)
-	defer w.sm.Close()
+	defer func() { w.sm.Close() }()
 	w.prev = takeSnap(w.sm.GetStorageState())
 
 	np := 1 + rnd.Intn(9)
@@ -956,6 +1016,7 @@ func runHistory(c *core.Ctx, idx int, res *childResult, verbose bool) {
 	}
 	w.lagged = rnd.Intn(100) < 60
 	length := 5 + rnd.Intn(56)
+	w.length = length
 	w.logf("history %d: node pool %v, lagged=%v, target length %d", idx, w.pool, w.lagged, length)
 	up := rnd.Intn(np + 1)
 	for i := 0; i < up && i < length/2; i++ {
@@ -989,7 +1050,7 @@ func runHistory(c *core.Ctx, idx int, res *childResult, verbose bool) {
 		h.Write(w.sig)
 		res.Nontrivial = append(res.Nontrivial, "h/"+strconv.FormatUint(h.Sum64(), 36))
 		if len(res.Samples) < 1 && w.delivered <= 25 {
-			res.Samples = append(res.Samples, map[string]any{"part": "history", "index": idx, "log": w.log, "final_state": w.prev})
+			res.Samples = append(res.Samples, map[string]any{"part": "history", "index": idx, "log": w.logLines(), "final_state": w.prev})
 		}
 	}
 }
